@@ -52,6 +52,7 @@ type raceCase struct {
 
 // programs touching every subsystem with package-level data
 var subsystems = []string{
+	"log(" + "String(" + librarySweep + ").length, " + librarySweep + ")",
 	`var m = /(\d+)-(\d+)/.exec("tel 555-1234"); log(m[1], m[2], "a1b22c".replace(/\d+/g, function(x){ return x.length }), RegExp("^[a-c]+$","i").test("ABC"))`,
 	`log(JSON.stringify({a:[1,2,{b:null}],c:"x y",d:1e21}), JSON.parse('{"k":[1,2.5,"s",true,null]}').k.length, JSON.stringify([new Date(0)]))`,
 	`var d = new Date(Date.UTC(2001, 1, 3, 4, 5, 6, 7)); log(d.toISOString(), d.getUTCDay(), Date.parse("2001-02-03T04:05:06.007Z"), new Date(NaN).getTime())`,
@@ -69,6 +70,23 @@ var subsystems = []string{
 	`log(typeof console, typeof console.log, Object.prototype.toString.call([]), Object.prototype.toString.call(null), [] + {}, [1,[2,3]] + "", String(function(){ return 1 }).length > 5)`,
 	`log(new Error("e1").message, new RangeError("r").name, Error("plain") instanceof Error, Object.prototype.toString.call(new TypeError))`,
 }
+
+// a sweep over the library: one call of (nearly) every built-in whose implementation could keep
+// package-level state (caches, scratch buffers, lazily built tables)
+const librarySweep = `(function(){ var r = [];
+ r.push("hello world".replace("o", "0"), "a-b-c".replace("-", "+"), "x".replace("y", "z"), "aXbXc".split("X").length, "a1b2".split(/\d/).join("|"), "abc".split("").length);
+ r.push("abc".localeCompare("abd"), "Ab".toLowerCase(), "ab".toUpperCase(), " t ".trim(), "abc".substr(1, 1), "abc".slice(-2), "abc".concat("d", 1), "abc".lastIndexOf("c"), "abc".charAt(1), String.fromCharCode(97, 8364));
+ r.push((1234.5678).toFixed(1), (0.00001).toString(), (255).toString(2), (1e21).toPrecision(3), (12.5).toExponential(1), Number("12.5e1"), parseInt("077", 8), parseFloat(".5x"), (5).toLocaleString !== undefined);
+ r.push([3, 1, 2].sort().join(), [1, [2, [3]]].toString(), [1, 2, 3].reverse().join("-"), [1, 2, 3].indexOf(2), [1, 2, 3].reduce(function(a, b){ return a + b }), [1, 2, 3].slice(1).concat(9).length, Array.isArray([]), [1, 2, 3].splice(1, 1)[0], [].concat([1], 2).length);
+ r.push(JSON.stringify({a: [1, {b: "x"}], c: null}, null, 2).length, JSON.stringify("\u2028<>&"), JSON.parse("[1,2,{\"a\":[]}]").length, JSON.stringify({toJSON: function(){ return 5 }}));
+ r.push(new Date(0).toISOString(), new Date(86400000).getUTCDay(), Date.UTC(2000, 1, 29), new Date(2000, 0, 1).getFullYear(), new Date(0).toUTCString().length > 5, Date.parse("1970-01-02T00:00:00.000Z"), new Date(1e12).toJSON());
+ r.push(Math.max(1, 2), Math.min(), Math.round(-0.5), Math.pow(2, 0.5).toFixed(5), Math.floor(-1.5), Math.abs(-3), Math.atan2(0, -1).toFixed(3), Math.sqrt(16), Math.ceil(0.2), Math.exp(0), Math.log(1), Math.sin(0), Math.random() >= 0);
+ r.push(encodeURI("a b/é?x=1"), encodeURIComponent("a&b=c"), decodeURI("%41%20"), decodeURIComponent("%E2%82%AC"), escape("a b€"), unescape("%u20AC%41"), isNaN("x"), isFinite("1"), typeof eval("(function(){})"));
+ r.push(/(\d+)-(\w+)/.exec("12-ab")[2], /a/gi.test("A"), "aBc".match(/[a-z]/g).length, "abc".search(/c/), new RegExp("^a.c$", "m").source, /x/.toString(), "a,b".replace(/,/g, function(m){ return ";" }), RegExp("[a-c]+").exec("xxabcxx").index);
+ r.push(Object.keys({a: 1, b: 2}).join(), Object.getOwnPropertyNames([1]).join(), Object.create({p: 1}).p, Object.isFrozen(Object.freeze({})), Object.getPrototypeOf([]) === Array.prototype, ({}).hasOwnProperty("x"), Object.prototype.toString.call(new Date(0)), typeof Object.getOwnPropertyDescriptor(Math, "PI").value);
+ r.push(String(new Error("e")), new TypeError("t").message, (function(){ try { null.x } catch (e) { return e.name + (typeof e.stack) } })(), (function(){ try { undefinedName } catch (e) { return e instanceof ReferenceError } })(), (function(){ try { new Array(-1) } catch (e) { return e.name } })(), (function(){ try { decodeURI("%") } catch (e) { return e.name } })());
+ r.push(typeof Function("a", "return a")(1), (function(a, b){ return arguments.length }).call(null, 1, 2, 3), (function(){ return this.v }).bind({v: 4})(), (function(){}).toString().length > 5, Boolean(""), new Number(3) + 1, new String("ab").length, Number.MAX_VALUE > 1, typeof console);
+ return r.join("~") })()`
 
 var sharedPrograms = []string{
 	// error objects with stack text and an uncaught error: the first source-position queries on the shared
@@ -134,6 +152,13 @@ func buildTemplate(setup []string) *otto.Otto {
 	for _, p := range setup {
 		runOn(t, p)
 	}
+	// the template has itself run a pre-parsed Program and a compiled Script before it is copied
+	if ap, err := parser.ParseFile(nil, "template.js", "var __templateRan = (typeof __templateRan === 'number' ? __templateRan : 0) + 1;", 0); err == nil {
+		runOn(t, ap)
+	}
+	if sc, err := t.Compile("template-script.js", "__templateRan += 1;"); err == nil {
+		runOn(t, sc)
+	}
 	t.Interrupt = nil
 	return t
 }
@@ -156,7 +181,16 @@ func makeRuntime(template *otto.Otto, spec rtSpec) *otto.Otto {
 func execute(vm *otto.Otto, spec rtSpec, script *otto.Script, program *ast.Program, reuse int) []string {
 	var out []string
 	for i, p := range spec.Programs {
-		out = append(out, runOn(vm, p))
+		if (i+spec.Seed)%2 == 1 {
+			// pre-parsed route: an *ast.Program that is new to this runtime (and to anything it shares with its template)
+			if ap, err := parser.ParseFile(nil, "private.js", p, 0); err == nil {
+				out = append(out, "ast:"+runOn(vm, ap))
+			} else {
+				out = append(out, "parse-error")
+			}
+		} else {
+			out = append(out, runOn(vm, p))
+		}
 		if spec.Shared && i == 0 {
 			for r := 0; r < reuse; r++ {
 				out = append(out, "script:"+runOn(vm, script))
